@@ -41,12 +41,25 @@ Proof.
     + rewrite app_assoc, firstn_skipn. auto.
 Qed.
 
-Lemma net_read_eof k s b s' : net_read k s = (b, EEOF, s') -> n_chunks s' = [].
+(* a read that ends the body: nothing is left, and the error is the network's terminal one *)
+Lemma net_read_end k s b e s' :
+  net_read k s = (b, e, s') -> e <> ENone -> n_chunks s' = [] /\ e = net_end s.
 Proof.
   unfold net_read. destruct (n_chunks s) as [|c r] eqn:E.
-  - intros H; inversion H; subst. exact E.
-  - destruct (length c <=? k); intros H; inversion H; subst; cbn [n_chunks].
-    + destruct r; [reflexivity|discriminate].
+  - intros H _; inversion H; subst. auto.
+  - destruct (length c <=? k); intros H Hn; inversion H; subst; cbn [n_chunks]; [|congruence].
+    destruct r; [|congruence]. unfold net_end.
+    destruct (n_eof_last s), (n_fail s); cbn in *; try congruence; auto.
+Qed.
+
+Lemma net_read_eof k s b s' : net_read k s = (b, EEOF, s') -> n_chunks s' = [].
+Proof. intros H. apply (net_read_end _ _ _ _ _ H). discriminate. Qed.
+
+Lemma net_read_fail_kept k s b e s' : net_read k s = (b, e, s') -> n_fail s' = n_fail s /\ net_end s' = net_end s.
+Proof.
+  unfold net_read, net_end. destruct (n_chunks s) as [|c r].
+  - intros H; inversion H; subst. auto.
+  - destruct (length c <=? k); intros H; inversion H; subst; cbn [n_fail]; auto.
 Qed.
 
 Lemma net_read_len k s b e s' : net_read k s = (b, e, s') -> length b <= k.
@@ -68,15 +81,27 @@ Proof.
     intros H; inversion H; subst; cbn [sr_pending]. apply firstn_skipn.
 Qed.
 
-Lemma sr_read_eof k s o s' : sr_read k s = (o, EEOF, s') -> sr_pending s' = [].
+Lemma sr_read_end k s o e s' :
+  sr_read k s = (o, e, s') -> e <> ENone -> sr_pending s' = [] /\ e = sr_end s.
 Proof.
   unfold sr_read. destruct (sr_pending s) as [|x p] eqn:E.
-  - intros H; inversion H; subst. exact E.
+  - intros H _; inversion H; subst. auto.
   - destruct (match sr_takes s with [] => (k, false) | y :: _ => y end) as [t fl].
-    intros H; inversion H as [[Ho He Hs]]; cbn [sr_pending].
-    destruct fl; [|discriminate]. cbn [andb] in He.
-    destruct (is_empty (skipn _ (x :: p))) eqn:Em; [|discriminate].
-    apply is_empty_true in Em. exact Em.
+    intros H Hn; injection H as Ho He Hs. subst s'. cbn [sr_pending].
+    destruct fl; cbn [andb] in He; [|congruence].
+    destruct (is_empty (skipn _ (x :: p))) eqn:Em; [|congruence].
+    apply is_empty_true in Em. auto.
+Qed.
+
+Lemma sr_read_eof k s o s' : sr_read k s = (o, EEOF, s') -> sr_pending s' = [].
+Proof. intros H. apply (sr_read_end _ _ _ _ _ H). discriminate. Qed.
+
+Lemma sr_read_end_kept k s o e s' : sr_read k s = (o, e, s') -> sr_end s' = sr_end s.
+Proof.
+  unfold sr_read. destruct (sr_pending s) as [|x p].
+  - intros H; inversion H; reflexivity.
+  - destruct (match sr_takes s with [] => (k, false) | y :: _ => y end) as [t fl].
+    intros H; injection H as _ _ Hs. subst s'. reflexivity.
 Qed.
 
 Lemma take_n_le k len t : take_n k len t <= k /\ take_n k len t <= len.
@@ -110,11 +135,19 @@ Proof.
   apply Nat.min_glb; [apply take_n_pos; [exact K|] |]; cbn [length]; lia.
 Qed.
 
-Theorem should_decode_iff disable sel resp_ae ct :
-  should_decode disable sel resp_ae ct = true <->
-  disable = false /\ resp_ae = [] /\ selected sel ct = true.
+(* a body that is still content-encoded when it reaches the charset stage is "not selected" *)
+Lemma still_encoded_not_selected disable sel resp_ce ct :
+  resp_ce <> [] -> should_decode disable sel resp_ce ct = false.
 Proof.
-  unfold should_decode. destruct disable, resp_ae as [|x r]; cbn; intuition congruence.
+  intros H. unfold should_decode. destruct resp_ce; [congruence|]. cbn [is_empty].
+  rewrite andb_false_r. reflexivity.
+Qed.
+
+Theorem should_decode_iff disable sel resp_ce ct :
+  should_decode disable sel resp_ce ct = true <->
+  disable = false /\ resp_ce = [] /\ selected sel ct = true.
+Proof.
+  unfold should_decode. destruct disable, resp_ce as [|x r]; cbn; intuition congruence.
 Qed.
 
 (* the hypothesis on the decoders, as a named predicate for the statements in Properties/C15.v *)
@@ -125,6 +158,7 @@ Section Proofs.
   Variable enc : Type.
   Variable dec_all : enc -> bytes -> bytes.
   Variable dec_stream : enc -> list bytes -> bytes.
+  Variable dec_partial : enc -> list bytes -> bytes.
   Variable find_encoding : bytes -> option enc.
   Variable parse_ct : bytes -> ct_parse.
   Variable lookup_charset : bytes -> option enc.
@@ -134,14 +168,14 @@ Section Proofs.
   Hypothesis dec_stream_any_split :
     forall e chunks, dec_stream e chunks = dec_all e (concat chunks).
 
-  Notation read_all := (read_all dec_stream find_encoding).
-  Notation run := (run dec_stream find_encoding).
-  Notation b_read := (b_read dec_stream find_encoding).
-  Notation a_read := (a_read dec_stream find_encoding).
-  Notation peek_read := (peek_read dec_stream find_encoding).
-  Notation open_body := (open_body dec_stream).
+  Notation read_all := (read_all dec_stream dec_partial find_encoding).
+  Notation run := (run dec_stream dec_partial find_encoding).
+  Notation b_read := (b_read dec_stream dec_partial find_encoding).
+  Notation a_read := (a_read dec_stream dec_partial find_encoding).
+  Notation peek_read := (peek_read dec_stream dec_partial find_encoding).
+  Notation open_body := (open_body dec_stream dec_partial).
   Notation decide := (decide parse_ct lookup_charset).
-  Notation respond := (respond dec_stream find_encoding parse_ct lookup_charset).
+  Notation respond := (respond dec_stream dec_partial find_encoding parse_ct lookup_charset).
   Notation sniffed := (sniffed find_encoding).
   Notation result_of := (result_of dec_all).
 
@@ -150,121 +184,159 @@ Section Proofs.
   Lemma read_all_run sizes b :
     read_all sizes b =
       (concat (map (fun x => fst (fst x)) (run sizes b)),
-       match last (map (fun x => snd (fst x)) (run sizes b)) ENone with EEOF => true | ENone => false end).
+       last (map (fun x => snd (fst x)) (run sizes b)) ENone).
   Proof.
     revert b. induction sizes as [|k r IH]; intros b; [reflexivity|].
     cbn [Charset.read_all Charset.run]. destruct (b_read k b) as [[o e] b'] eqn:R.
     destruct e.
     - rewrite IH. cbn [map concat fst snd].
-      destruct (Charset.run dec_stream find_encoding r b') as [|y ys] eqn:Q; [reflexivity|].
+      destruct (Charset.run dec_stream dec_partial find_encoding r b') as [|y ys] eqn:Q; [reflexivity|].
       cbn [map last]. reflexivity.
+    - cbn [map concat fst snd last]. rewrite app_nil_r. reflexivity.
     - cbn [map concat fst snd last]. rewrite app_nil_r. reflexivity.
   Qed.
 
-  (* ---------- raw body ---------- *)
+  (* what a transform.Reader over chunks [cs] delivers in total, by how the network ends *)
+  Definition stream_out (en : enc) (cs : list bytes) (fail : bool) : bytes :=
+    if fail then dec_partial en cs else dec_stream en cs.
 
-  Lemma read_all_raw sizes : forall n o,
-    read_all sizes (BRaw n) = (o, true) -> o = concat (n_chunks n).
+  (* ---------- raw body: everything that arrived, then the network's own terminal error ---------- *)
+
+  Lemma read_all_raw_end sizes : forall n o e,
+    read_all sizes (BRaw n) = (o, e) -> e <> ENone -> o = concat (n_chunks n) /\ e = net_end n.
   Proof.
-    induction sizes as [|k r IH]; intros n o; cbn [Charset.read_all]; [discriminate|].
-    cbn [Charset.b_read]. destruct (net_read k n) as [[b e] n'] eqn:R.
-    destruct (net_read_concat _ _ _ _ _ R) as [C _].
-    destruct e.
-    - destruct (read_all r (BRaw n')) as [o' f] eqn:Q. intros H; inversion H; subst.
-      rewrite (IH _ _ Q). exact C.
-    - intros H; inversion H; subst. rewrite (net_read_eof _ _ _ _ R) in C.
-      cbn [concat] in C. rewrite app_nil_r in C. exact C.
+    induction sizes as [|k r IH]; intros n o e; cbn [Charset.read_all]; [intros H; inversion H; congruence|].
+    cbn [Charset.b_read]. destruct (net_read k n) as [[b e0] n'] eqn:R.
+    destruct (net_read_concat _ _ _ _ _ R) as [C _]. destruct (net_read_fail_kept _ _ _ _ _ R) as [_ K].
+    destruct e0.
+    - destruct (read_all r (BRaw n')) as [o' f] eqn:Q. intros H Hn; inversion H; subst.
+      destruct (IH _ _ _ Q Hn) as [A B]. subst o'. rewrite B, K. auto.
+    - intros H Hn; inversion H; subst. destruct (net_read_end _ _ _ _ _ R Hn) as [A B].
+      rewrite A in C. cbn [concat] in C. rewrite app_nil_r in C. auto.
+    - intros H Hn; inversion H; subst. destruct (net_read_end _ _ _ _ _ R Hn) as [A B].
+      rewrite A in C. cbn [concat] in C. rewrite app_nil_r in C. auto.
   Qed.
 
   (* ---------- Content-Type charset: one streaming decoder over the whole body ---------- *)
 
-  Lemma read_all_header sizes : forall s o,
-    read_all sizes (BHeader s) = (o, true) -> o = sr_pending s.
+  Lemma read_all_header_end sizes : forall s o e,
+    read_all sizes (BHeader s) = (o, e) -> e <> ENone -> o = sr_pending s /\ e = sr_end s.
   Proof.
-    induction sizes as [|k r IH]; intros s o; cbn [Charset.read_all]; [discriminate|].
-    cbn [Charset.b_read]. destruct (sr_read k s) as [[b e] s'] eqn:R.
-    pose proof (sr_read_split _ _ _ _ _ R) as C.
-    destruct e.
-    - destruct (read_all r (BHeader s')) as [o' f] eqn:Q. intros H; inversion H; subst.
-      rewrite (IH _ _ Q). exact C.
-    - intros H; inversion H; subst. rewrite (sr_read_eof _ _ _ _ R) in C.
-      rewrite app_nil_r in C. exact C.
+    induction sizes as [|k r IH]; intros s o e; cbn [Charset.read_all]; [intros H; inversion H; congruence|].
+    cbn [Charset.b_read]. destruct (sr_read k s) as [[b e0] s'] eqn:R.
+    pose proof (sr_read_split _ _ _ _ _ R) as C. pose proof (sr_read_end_kept _ _ _ _ _ R) as K.
+    destruct e0.
+    - destruct (read_all r (BHeader s')) as [o' f] eqn:Q. intros H Hn; inversion H; subst.
+      destruct (IH _ _ _ Q Hn) as [A B]. subst o'. rewrite B, K. auto.
+    - intros H Hn; inversion H; subst. destruct (sr_read_end _ _ _ _ _ R Hn) as [A B].
+      rewrite A, app_nil_r in C. auto.
+    - intros H Hn; inversion H; subst. destruct (sr_read_end _ _ _ _ _ R Hn) as [A B].
+      rewrite A, app_nil_r in C. auto.
   Qed.
 
   (* ---------- sniffing reader, after detection ---------- *)
 
-  Lemma read_all_detected_raw sizes : forall a o,
+  Lemma read_all_detected_raw_end sizes : forall a o e,
     a_detected a = true -> a_dec a = None -> a_peek a = None ->
-    read_all sizes (BSniff a) = (o, true) -> o = concat (n_chunks (a_net a)).
+    read_all sizes (BSniff a) = (o, e) -> e <> ENone ->
+    o = concat (n_chunks (a_net a)) /\ e = net_end (a_net a).
   Proof.
-    induction sizes as [|k r IH]; intros a o D N P; cbn [Charset.read_all]; [discriminate|].
+    induction sizes as [|k r IH]; intros a o e D N P; cbn [Charset.read_all]; [intros H; inversion H; congruence|].
     cbn [Charset.b_read]. unfold Charset.a_read, a_read_detected. rewrite D, P, N.
-    destruct (net_read k (a_net a)) as [[b e] n'] eqn:R.
-    destruct (net_read_concat _ _ _ _ _ R) as [C _].
-    destruct e.
+    destruct (net_read k (a_net a)) as [[b e0] n'] eqn:R.
+    destruct (net_read_concat _ _ _ _ _ R) as [C _]. destruct (net_read_fail_kept _ _ _ _ _ R) as [_ K].
+    destruct e0.
     - match goal with |- context [read_all r (BSniff ?x)] => set (a' := x) end.
-      destruct (read_all r (BSniff a')) as [o' f] eqn:Q. intros H; inversion H; subst.
-      rewrite (IH a' _ eq_refl eq_refl eq_refl Q). exact C.
-    - intros H; inversion H; subst. rewrite (net_read_eof _ _ _ _ R) in C.
-      cbn [concat] in C. rewrite app_nil_r in C. exact C.
+      destruct (read_all r (BSniff a')) as [o' f] eqn:Q. intros H Hn; inversion H; subst o f.
+      destruct (IH a' _ _ eq_refl eq_refl eq_refl Q Hn) as [A B]. subst o'. subst a'. cbn [a_net] in *.
+      rewrite B, K. auto.
+    - intros H Hn; inversion H; subst. destruct (net_read_end _ _ _ _ _ R Hn) as [A B].
+      rewrite A in C. cbn [concat] in C. rewrite app_nil_r in C. auto.
+    - intros H Hn; inversion H; subst. destruct (net_read_end _ _ _ _ _ R Hn) as [A B].
+      rewrite A in C. cbn [concat] in C. rewrite app_nil_r in C. auto.
   Qed.
 
-  Lemma read_all_detected_dec sizes : forall a sr o,
+  Lemma read_all_detected_dec_end sizes : forall a sr o e,
     a_detected a = true -> a_dec a = Some sr -> a_peek a = None ->
-    read_all sizes (BSniff a) = (o, true) -> o = sr_pending sr.
+    read_all sizes (BSniff a) = (o, e) -> e <> ENone -> o = sr_pending sr /\ e = sr_end sr.
   Proof.
-    induction sizes as [|k r IH]; intros a sr o D N P; cbn [Charset.read_all]; [discriminate|].
+    induction sizes as [|k r IH]; intros a sr o e D N P; cbn [Charset.read_all]; [intros H; inversion H; congruence|].
     cbn [Charset.b_read]. unfold Charset.a_read, a_read_detected. rewrite D, P, N.
-    destruct (sr_read k sr) as [[b e] sr'] eqn:R.
-    pose proof (sr_read_split _ _ _ _ _ R) as C.
-    destruct e.
+    destruct (sr_read k sr) as [[b e0] sr'] eqn:R.
+    pose proof (sr_read_split _ _ _ _ _ R) as C. pose proof (sr_read_end_kept _ _ _ _ _ R) as K.
+    destruct e0.
     - match goal with |- context [read_all r (BSniff ?x)] => set (a' := x) end.
-      destruct (read_all r (BSniff a')) as [o' f] eqn:Q. intros H; inversion H; subst.
-      rewrite (IH a' sr' _ eq_refl eq_refl eq_refl Q). exact C.
-    - intros H; inversion H; subst. rewrite (sr_read_eof _ _ _ _ R) in C.
-      rewrite app_nil_r in C. exact C.
+      destruct (read_all r (BSniff a')) as [o' f] eqn:Q. intros H Hn; inversion H; subst o f.
+      destruct (IH a' sr' _ _ eq_refl eq_refl eq_refl Q Hn) as [A B]. subst o'. rewrite B, K. auto.
+    - intros H Hn; inversion H; subst. destruct (sr_read_end _ _ _ _ _ R Hn) as [A B].
+      rewrite A, app_nil_r in C. auto.
+    - intros H Hn; inversion H; subst. destruct (sr_read_end _ _ _ _ _ R Hn) as [A B].
+      rewrite A, app_nil_r in C. auto.
   Qed.
 
   (* ---------- sniffing reader, from the start ---------- *)
 
-  Lemma read_all_sniff sizes : forall a o,
+  (* the body that comes out of the sniffing reader, by what was sniffed and how the network ends *)
+  Definition sniff_out (s : option enc) (n : net) (o : bytes) : Prop :=
+    match s with
+    | None => o = concat (n_chunks n)
+    | Some en => exists cs, concat cs = concat (n_chunks n) /\ o = stream_out en cs (n_fail n)
+    end.
+
+  Lemma read_all_sniff_end sizes : forall a o e,
     a_detected a = false -> a_dec a = None -> a_peek a = None ->
-    read_all sizes (BSniff a) = (o, true) ->
-    o = result_of (sniffed sizes (a_net a)) (concat (n_chunks (a_net a))).
+    read_all sizes (BSniff a) = (o, e) -> e <> ENone ->
+    sniff_out (sniffed sizes (a_net a)) (a_net a) o /\ e = net_end (a_net a).
   Proof.
-    induction sizes as [|k r IH]; intros a o D N P; cbn [Charset.read_all]; [discriminate|].
+    induction sizes as [|k r IH]; intros a o e D N P; cbn [Charset.read_all]; [intros H; inversion H; congruence|].
     cbn [Charset.b_read]. unfold Charset.a_read, Charset.peek_read. rewrite D.
     unfold sniffed. cbn [first_read].
-    destruct (net_read k (a_net a)) as [[b e] n'] eqn:R.
-    destruct (net_read_concat _ _ _ _ _ R) as [C _].
+    destruct (net_read k (a_net a)) as [[b e0] n'] eqn:R.
+    destruct (net_read_concat _ _ _ _ _ R) as [C _]. destruct (net_read_fail_kept _ _ _ _ _ R) as [KF K].
     destruct (is_empty b) eqn:Em.
     - apply is_empty_true in Em. subst b. cbn [app] in C.
-      destruct e.
+      destruct e0.
       + match goal with |- context [read_all r (BSniff ?x)] => set (a' := x) end.
-        destruct (read_all r (BSniff a')) as [o' f] eqn:Q. intros H; inversion H; subst.
-        rewrite (IH a' _ eq_refl N P Q). unfold sniffed. subst a'. cbn [a_net]. rewrite C. reflexivity.
-      + intros H; inversion H; subst. rewrite (net_read_eof _ _ _ _ R) in C.
-        cbn [concat] in C. rewrite <- C. reflexivity.
+        destruct (read_all r (BSniff a')) as [o' f] eqn:Q. intros H Hn; inversion H; subst o f.
+        destruct (IH a' _ _ eq_refl N P Q Hn) as [A B]. subst a'. cbn [a_net] in *.
+        unfold sniffed in A. rewrite B, K. split; [|reflexivity].
+        destruct (first_read r n') as [b1|]; [destruct (find_encoding b1)|]; cbn [sniff_out] in *;
+          rewrite <- ?C, <- ?KF; exact A.
+      + intros H Hn; inversion H; subst. destruct (net_read_end _ _ _ _ _ R Hn) as [A B].
+        rewrite A in C. cbn [concat] in C. cbn [sniff_out]. auto.
+      + intros H Hn; inversion H; subst. destruct (net_read_end _ _ _ _ _ R Hn) as [A B].
+        rewrite A in C. cbn [concat] in C. cbn [sniff_out]. auto.
     - destruct (find_encoding b) as [en|] eqn:F.
       + (* a decoder is created over the first read and the rest of the body *)
         match goal with |- context [sr_read k ?x] => set (sr := x) end.
-        assert (Hp : sr_pending sr = dec_all en (concat (n_chunks (a_net a)))).
-        { subst sr. cbn [sr_pending]. rewrite dec_stream_any_split. cbn [concat]. rewrite C. reflexivity. }
+        assert (Hp : sr_pending sr = stream_out en (b :: n_chunks n') (n_fail (a_net a))).
+        { subst sr. unfold mk_sreader, stream_out. cbn [sr_pending]. rewrite KF. reflexivity. }
+        assert (He : sr_end sr = net_end (a_net a)) by (subst sr; unfold mk_sreader; cbn [sr_end]; exact K).
         destruct (sr_read k sr) as [[o1 e2] sr'] eqn:R2.
-        pose proof (sr_read_split _ _ _ _ _ R2) as C2.
-        cbn [result_of]. rewrite <- Hp.
+        pose proof (sr_read_split _ _ _ _ _ R2) as C2. pose proof (sr_read_end_kept _ _ _ _ _ R2) as K2.
+        cbn [sniff_out].
+        assert (G : forall o e, o = sr_pending sr -> e = sr_end sr ->
+                    (exists cs, concat cs = concat (n_chunks (a_net a)) /\ o = stream_out en cs (n_fail (a_net a))) /\
+                    e = net_end (a_net a)).
+        { intros o0 e1 -> ->. split; [|exact He]. exists (b :: n_chunks n'). split; [exact C|exact Hp]. }
         destruct e2.
         * match goal with |- context [read_all r (BSniff ?x)] => set (a' := x) end.
-          destruct (read_all r (BSniff a')) as [o' f] eqn:Q. intros H; inversion H; subst o f.
-          rewrite (read_all_detected_dec r a' sr' o' eq_refl eq_refl P Q). exact C2.
-        * intros H; inversion H; subst. rewrite (sr_read_eof _ _ _ _ R2) in C2.
-          rewrite app_nil_r in C2. exact C2.
-      + cbn [result_of]. destruct e.
+          destruct (read_all r (BSniff a')) as [o' f] eqn:Q. intros H Hn; inversion H; subst o f.
+          destruct (read_all_detected_dec_end r a' sr' o' e eq_refl eq_refl P Q Hn) as [A B].
+          apply G; [subst o'; exact C2 | rewrite B; exact K2].
+        * intros H Hn; inversion H; subst. destruct (sr_read_end _ _ _ _ _ R2 Hn) as [A B].
+          rewrite A, app_nil_r in C2. apply G; auto.
+        * intros H Hn; inversion H; subst. destruct (sr_read_end _ _ _ _ _ R2 Hn) as [A B].
+          rewrite A, app_nil_r in C2. apply G; auto.
+      + cbn [sniff_out]. destruct e0.
         * match goal with |- context [read_all r (BSniff ?x)] => set (a' := x) end.
-          destruct (read_all r (BSniff a')) as [o' f] eqn:Q. intros H; inversion H; subst o f.
-          rewrite (read_all_detected_raw r a' o' eq_refl N P Q). exact C.
-        * intros H; inversion H; subst. rewrite (net_read_eof _ _ _ _ R) in C.
-          cbn [concat] in C. rewrite app_nil_r in C. exact C.
+          destruct (read_all r (BSniff a')) as [o' f] eqn:Q. intros H Hn; inversion H; subst o f.
+          destruct (read_all_detected_raw_end r a' o' e eq_refl N P Q Hn) as [A B].
+          subst a'. cbn [a_net] in *. subst o'. rewrite B, K. auto.
+        * intros H Hn; inversion H; subst. destruct (net_read_end _ _ _ _ _ R Hn) as [A B].
+          rewrite A in C. cbn [concat] in C. rewrite app_nil_r in C. auto.
+        * intros H Hn; inversion H; subst. destruct (net_read_end _ _ _ _ _ R Hn) as [A B].
+          rewrite A in C. cbn [concat] in C. rewrite app_nil_r in C. auto.
   Qed.
 
   (* detection only ever looks at a non-empty PREFIX of the body *)
@@ -275,7 +347,7 @@ Section Proofs.
     destruct (net_read k n) as [[b0 e] n'] eqn:R.
     destruct (net_read_concat _ _ _ _ _ R) as [C _].
     destruct (is_empty b0) eqn:Em.
-    - apply is_empty_true in Em. subst b0. cbn [app] in C. destruct e; [|discriminate].
+    - apply is_empty_true in Em. subst b0. cbn [app] in C. destruct e; [|discriminate|discriminate].
       intros H. destruct (IH _ _ H) as [Hn [rest Hr]]. split; [exact Hn|].
       exists rest. rewrite <- C. exact Hr.
     - intros H; inversion H; subst. split.
@@ -285,36 +357,89 @@ Section Proofs.
 
   (* ---------- the whole pipeline ---------- *)
 
-  (* exact characterisation of the delivered body *)
-  Theorem respond_exact disable sel resp_ae ct chunks eof_last takes sizes o :
-    respond disable sel resp_ae ct chunks eof_last takes sizes = (o, true) ->
-    o = match decide disable sel resp_ae ct with
-        | IRaw => concat chunks
-        | IHeader e => dec_all e (concat chunks)
-        | ISniff => result_of (sniffed sizes (fresh_net chunks eof_last)) (concat chunks)
-        end.
+  (* every way the reading can end: the terminal error is the network's (io.EOF, or the failure), and
+     what was delivered up to it is everything that arrived, resp. everything the one streaming decoder
+     made of it *)
+  Theorem respond_outcome disable sel resp_ce ct chunks eof_last fail takes sizes o e :
+    respond disable sel resp_ce ct chunks eof_last fail takes sizes = (o, e) -> e <> ENone ->
+    e = (if fail then EFail else EEOF) /\
+    match decide disable sel resp_ce ct with
+    | IRaw => o = concat chunks
+    | IHeader en => o = stream_out en chunks fail
+    | ISniff => sniff_out (sniffed sizes (fresh_net chunks eof_last fail)) (fresh_net chunks eof_last fail) o
+    end.
   Proof.
-    unfold Charset.respond. destruct (decide disable sel resp_ae ct) as [|e|]; cbn [Charset.open_body].
-    - intros H. apply read_all_raw in H. exact H.
-    - intros H. apply read_all_header in H. cbn [sr_pending] in H. rewrite dec_stream_any_split in H. exact H.
-    - intros H. apply read_all_sniff in H; auto.
+    unfold Charset.respond. destruct (decide disable sel resp_ce ct) as [|en|]; cbn [Charset.open_body]; intros H Hn.
+    - destruct (read_all_raw_end _ _ _ _ H Hn) as [A B]. split; [exact B|exact A].
+    - destruct (read_all_header_end _ _ _ _ H Hn) as [A B]. split; [exact B|exact A].
+    - destruct (read_all_sniff_end sizes (fresh_adrc chunks eof_last fail takes) o e eq_refl eq_refl eq_refl H Hn) as [A B].
+      split; [exact B|exact A].
   Qed.
 
-  Theorem two_results_only disable sel resp_ae ct chunks eof_last takes sizes o :
-    respond disable sel resp_ae ct chunks eof_last takes sizes = (o, true) ->
+  (* exact characterisation of the delivered body *)
+  Theorem respond_exact disable sel resp_ce ct chunks eof_last fail takes sizes o :
+    respond disable sel resp_ce ct chunks eof_last fail takes sizes = (o, EEOF) ->
+    o = match decide disable sel resp_ce ct with
+        | IRaw => concat chunks
+        | IHeader e => dec_all e (concat chunks)
+        | ISniff => result_of (sniffed sizes (fresh_net chunks eof_last fail)) (concat chunks)
+        end.
+  Proof.
+    intros H. destruct (respond_outcome _ _ _ _ _ _ _ _ _ _ _ H) as [E A]; [discriminate|].
+    destruct fail; [discriminate|].
+    destruct (decide disable sel resp_ce ct) as [|en|].
+    - exact A.
+    - unfold stream_out in A. rewrite dec_stream_any_split in A. exact A.
+    - destruct (sniffed sizes (fresh_net chunks eof_last false)) as [en|]; cbn [sniff_out result_of] in *.
+      + destruct A as [cs [Cc Ho]]. unfold stream_out in Ho. cbn [fresh_net n_fail n_chunks] in *.
+        rewrite dec_stream_any_split, Cc in Ho. exact Ho.
+      + exact A.
+  Qed.
+
+  (* ---------- a network error in mid-body ---------- *)
+
+  (* it always reaches the caller: a failing network never ends in a clean io.EOF *)
+  Theorem net_error_surfaces disable sel resp_ce ct chunks eof_last takes sizes o e :
+    respond disable sel resp_ce ct chunks eof_last true takes sizes = (o, e) -> e <> EEOF.
+  Proof.
+    intros H E. subst e. destruct (respond_outcome _ _ _ _ _ _ _ _ _ _ _ H) as [A _]; discriminate.
+  Qed.
+
+  (* and what was delivered before it is a prefix of one of the two permitted bodies of the COMPLETE
+     response, whatever would have followed ([rest]); hypothesis on the decoders: what a
+     transform.Reader delivers before surfacing a source error is a prefix of the transcoding of any
+     completion of its input *)
+  Theorem net_error_prefix disable sel resp_ce ct chunks eof_last takes sizes o :
+    (forall e cs rest, exists tail, dec_all e (concat cs ++ rest) = dec_partial e cs ++ tail) ->
+    respond disable sel resp_ce ct chunks eof_last true takes sizes = (o, EFail) ->
+    forall rest,
+      (exists tail, concat chunks ++ rest = o ++ tail) \/
+      (exists en tail, dec_all en (concat chunks ++ rest) = o ++ tail).
+  Proof.
+    intros PO H rest. destruct (respond_outcome _ _ _ _ _ _ _ _ _ _ _ H) as [_ A]; [discriminate|].
+    destruct (decide disable sel resp_ce ct) as [|en|].
+    - left. exists rest. subst o. reflexivity.
+    - right. exists en. unfold stream_out in A. subst o. apply PO.
+    - destruct (sniffed sizes (fresh_net chunks eof_last true)) as [en|]; cbn [sniff_out fresh_net n_chunks n_fail] in A.
+      + right. exists en. destruct A as [cs [Cc Ho]]. unfold stream_out in Ho. subst o. rewrite <- Cc. apply PO.
+      + left. exists rest. subst o. reflexivity.
+  Qed.
+
+  Theorem two_results_only disable sel resp_ce ct chunks eof_last fail takes sizes o :
+    respond disable sel resp_ce ct chunks eof_last fail takes sizes = (o, EEOF) ->
     o = concat chunks \/ exists e, o = dec_all e (concat chunks).
   Proof.
     intros H. apply respond_exact in H.
-    destruct (decide disable sel resp_ae ct) as [|e|]; [left; exact H | right; eauto |].
+    destruct (decide disable sel resp_ce ct) as [|e|]; [left; exact H | right; eauto |].
     unfold result_of in H. destruct (sniffed _ _) as [e|]; [right; eauto | left; exact H].
   Qed.
 
-  Theorem header_charset_always_applied disable sel resp_ae ct v e chunks eof_last takes sizes o :
-    should_decode disable sel resp_ae ct = true ->
+  Theorem header_charset_always_applied disable sel resp_ce ct v e chunks eof_last fail takes sizes o :
+    should_decode disable sel resp_ce ct = true ->
     parse_ct ct = PCharset v ->
     is_utf8_label (to_lower v) = false ->
     lookup_charset (to_lower v) = Some e ->
-    respond disable sel resp_ae ct chunks eof_last takes sizes = (o, true) ->
+    respond disable sel resp_ce ct chunks eof_last fail takes sizes = (o, EEOF) ->
     o = dec_all e (concat chunks).
   Proof.
     intros S P U L H. apply respond_exact in H.
@@ -322,46 +447,55 @@ Section Proofs.
   Qed.
 
   (* utf-8 / unsupported label in Content-Type: left alone (and not sniffed) *)
-  Theorem header_utf8_or_unknown_left disable sel resp_ae ct v chunks eof_last takes sizes o :
+  Theorem header_utf8_or_unknown_left disable sel resp_ce ct v chunks eof_last fail takes sizes o :
     parse_ct ct = PCharset v ->
     is_utf8_label (to_lower v) = true \/ lookup_charset (to_lower v) = None ->
-    respond disable sel resp_ae ct chunks eof_last takes sizes = (o, true) ->
+    respond disable sel resp_ce ct chunks eof_last fail takes sizes = (o, EEOF) ->
     o = concat chunks.
   Proof.
     intros P U H. apply respond_exact in H.
     unfold Charset.decide, charset_from_content_type in H. rewrite P in H.
-    destruct (should_decode disable sel resp_ae ct); [|exact H].
+    destruct (should_decode disable sel resp_ce ct); [|exact H].
     destruct (is_utf8_label (to_lower v)); [exact H|].
     destruct U as [U|U]; [discriminate|]. rewrite U in H. exact H.
   Qed.
 
   (* not selected (or switched off): the body object is not even wrapped, so every read is the
      network's own read; in particular the bytes are the original ones *)
-  Theorem unselected_untouched disable sel resp_ae ct chunks eof_last takes :
-    should_decode disable sel resp_ae ct = false ->
-    open_body (decide disable sel resp_ae ct) chunks eof_last takes = BRaw (fresh_net chunks eof_last) /\
-    forall sizes o, respond disable sel resp_ae ct chunks eof_last takes sizes = (o, true) ->
+  Theorem unselected_untouched disable sel resp_ce ct chunks eof_last fail takes :
+    should_decode disable sel resp_ce ct = false ->
+    open_body (decide disable sel resp_ce ct) chunks eof_last fail takes = BRaw (fresh_net chunks eof_last fail) /\
+    forall sizes o, respond disable sel resp_ce ct chunks eof_last fail takes sizes = (o, EEOF) ->
                     o = concat chunks.
   Proof.
     intros S. unfold Charset.decide. rewrite S. split; [reflexivity|].
     intros sizes o H. apply respond_exact in H. unfold Charset.decide in H. rewrite S in H. exact H.
   Qed.
 
+  Theorem still_encoded_untouched disable sel resp_ce ct chunks eof_last fail takes :
+    resp_ce <> [] ->
+    open_body (decide disable sel resp_ce ct) chunks eof_last fail takes = BRaw (fresh_net chunks eof_last fail) /\
+    forall sizes o, respond disable sel resp_ce ct chunks eof_last fail takes sizes = (o, EEOF) ->
+                    o = concat chunks.
+  Proof.
+    intros H. apply unselected_untouched. apply still_encoded_not_selected. exact H.
+  Qed.
+
   (* how the body is split into network reads and how the caller reads can only decide WHICH of
      the two results is produced, and only through what FindEncoding says about the first
      non-empty read (a prefix of the body, [first_read_prefix]): with a charset in Content-Type, or
      whenever detection comes out the same, the delivered bodies are identical *)
-  Theorem split_only_affects_detection disable sel resp_ae ct
-          chunks1 eof1 takes1 sizes1 o1 chunks2 eof2 takes2 sizes2 o2 :
+  Theorem split_only_affects_detection disable sel resp_ce ct
+          chunks1 eof1 fail1 takes1 sizes1 o1 chunks2 eof2 fail2 takes2 sizes2 o2 :
     concat chunks1 = concat chunks2 ->
-    respond disable sel resp_ae ct chunks1 eof1 takes1 sizes1 = (o1, true) ->
-    respond disable sel resp_ae ct chunks2 eof2 takes2 sizes2 = (o2, true) ->
-    (decide disable sel resp_ae ct <> ISniff \/
-     sniffed sizes1 (fresh_net chunks1 eof1) = sniffed sizes2 (fresh_net chunks2 eof2)) ->
+    respond disable sel resp_ce ct chunks1 eof1 fail1 takes1 sizes1 = (o1, EEOF) ->
+    respond disable sel resp_ce ct chunks2 eof2 fail2 takes2 sizes2 = (o2, EEOF) ->
+    (decide disable sel resp_ce ct <> ISniff \/
+     sniffed sizes1 (fresh_net chunks1 eof1 fail1) = sniffed sizes2 (fresh_net chunks2 eof2 fail2)) ->
     o1 = o2.
   Proof.
     intros E H1 H2 C. apply respond_exact in H1. apply respond_exact in H2.
-    destruct (decide disable sel resp_ae ct) as [|e|] eqn:D.
+    destruct (decide disable sel resp_ce ct) as [|e|] eqn:D.
     - congruence.
     - congruence.
     - destruct C as [C|C]; [congruence|]. rewrite C, E in H1. congruence.
@@ -369,19 +503,19 @@ Section Proofs.
 
   (* ... and when they differ, one is the original and the other its transcoding (or two
      transcodings, if the two first reads made FindEncoding name different charsets) *)
-  Theorem split_results disable sel resp_ae ct chunks eof_last takes sizes o :
-    respond disable sel resp_ae ct chunks eof_last takes sizes = (o, true) ->
-    decide disable sel resp_ae ct = ISniff ->
-    o = result_of (sniffed sizes (fresh_net chunks eof_last)) (concat chunks).
+  Theorem split_results disable sel resp_ce ct chunks eof_last fail takes sizes o :
+    respond disable sel resp_ce ct chunks eof_last fail takes sizes = (o, EEOF) ->
+    decide disable sel resp_ce ct = ISniff ->
+    o = result_of (sniffed sizes (fresh_net chunks eof_last fail)) (concat chunks).
   Proof. intros H D. apply respond_exact in H. rewrite D in H. exact H. Qed.
 
   (* caller buffer sizes (and the x/text reader's hand-out schedule) do not matter beyond the
      size of the very first non-empty read *)
-  Theorem read_size_independent disable sel resp_ae ct chunks eof_last takes1 sizes1 o1 takes2 sizes2 o2 :
-    respond disable sel resp_ae ct chunks eof_last takes1 sizes1 = (o1, true) ->
-    respond disable sel resp_ae ct chunks eof_last takes2 sizes2 = (o2, true) ->
-    (decide disable sel resp_ae ct <> ISniff \/
-     first_read sizes1 (fresh_net chunks eof_last) = first_read sizes2 (fresh_net chunks eof_last)) ->
+  Theorem read_size_independent disable sel resp_ce ct chunks eof_last fail takes1 sizes1 o1 takes2 sizes2 o2 :
+    respond disable sel resp_ce ct chunks eof_last fail takes1 sizes1 = (o1, EEOF) ->
+    respond disable sel resp_ce ct chunks eof_last fail takes2 sizes2 = (o2, EEOF) ->
+    (decide disable sel resp_ce ct <> ISniff \/
+     first_read sizes1 (fresh_net chunks eof_last fail) = first_read sizes2 (fresh_net chunks eof_last fail)) ->
     o1 = o2.
   Proof.
     intros H1 H2 C. eapply split_only_affects_detection; eauto.
@@ -389,11 +523,11 @@ Section Proofs.
   Qed.
 
   (* e.g. whenever both callers' first buffers hold the whole first network chunk *)
-  Theorem read_size_independent_first_chunk disable sel resp_ae ct c rest eof_last
+  Theorem read_size_independent_first_chunk disable sel resp_ce ct c rest eof_last fail
           takes1 k1 r1 o1 takes2 k2 r2 o2 :
     c <> [] -> length c <= k1 -> length c <= k2 ->
-    respond disable sel resp_ae ct (c :: rest) eof_last takes1 (k1 :: r1) = (o1, true) ->
-    respond disable sel resp_ae ct (c :: rest) eof_last takes2 (k2 :: r2) = (o2, true) ->
+    respond disable sel resp_ce ct (c :: rest) eof_last fail takes1 (k1 :: r1) = (o1, EEOF) ->
+    respond disable sel resp_ce ct (c :: rest) eof_last fail takes2 (k2 :: r2) = (o2, EEOF) ->
     o1 = o2.
   Proof.
     intros Hc L1 L2 H1 H2. eapply read_size_independent; eauto. right.
@@ -403,3 +537,6 @@ Section Proofs.
   Qed.
 
 End Proofs.
+
+Arguments stream_out {enc}.
+Arguments sniff_out {enc}.
